@@ -343,11 +343,32 @@ pub fn wrap_cases() -> Vec<Case> {
     out
 }
 
+/// a deterministic grid: sizes around block/window boundaries x representative option pairs x direction x port mode
+fn grid() -> Vec<Case> {
+    let mut out = vec![];
+    for (blk, ws) in [(512usize, 1u16), (8, 4), (1024, 3), (1428, 8), (65464, 1), (511, 2)] {
+        let w = ws as usize;
+        for len in [0usize, 1, blk - 1, blk, blk + 1, w * blk, w * blk + 1, (w + 1) * blk - 1, 2 * w * blk + 7] {
+            if blk > 4096 && len > 3 * blk {
+                continue;
+            }
+            for upload in [false, true] {
+                for single in [false, true] {
+                    out.push(Case { single, ipv6: false, upload, style: Style::Plain, blk, ws, timeout: 3, len, refusal: Refusal::None, abs_rd: false, seed: 1400 + len as u64, stale_dest: false, keep: false, server_dup: 0 });
+                }
+            }
+        }
+    }
+    out
+}
+
 pub fn run(ctx: &Ctx) {
-    ctx.set_rule("the real tftpc is run against the real tftpd: {download, upload} x {single, multi port} x {IPv4, IPv6 loopback if available} x {plain, nested, Windows-style path} x blksize 8..65464 x windowsize 1..65535 x timeout 1..255 x file sizes {0, 1, blk-1, blk, blk+1, W*blk, (W+1)*blk, 2W*blk+r, random} (one burst kept below 100 KB), x server --duplicate-packets {0,1,2,3,10} x client --keep-on-error x an older, longer file at the destination, plus refusals (missing file, existing file without overwrite, read-only server), plus two >65535-block transfers at blksize 8. Oracle after tftpc exits: byte-identical files on both sides; a download is stored at <receive-directory>/<basename>, an upload at <server receive dir>/<basename>; on refusal no file appears on the client side, the server's file is untouched and tftpc's stderr reports the error; tftpc ends within the watchdog (40 s, 120 s for the long transfers). Non-trivial = non-default options or >= 2 blocks; distinct = distinct cases. Failures are re-run once in isolation.");
+    ctx.set_rule("the real tftpc is run against the real tftpd. Deterministic grid: 9 sizes around block/window boundaries x 6 (blksize, windowsize) pairs x direction x port mode. Random: {download, upload} x {single, multi port} x {IPv4, IPv6 loopback if available} x {plain, nested, Windows-style path} x blksize 8..65464 x windowsize 1..65535 x timeout 1..255 x file sizes {0, 1, blk-1, blk, blk+1, W*blk, (W+1)*blk, 2W*blk+r, random} (one burst kept below 100 KB), x server --duplicate-packets {0,1,2,3,10} x client --keep-on-error x an older, longer file at the destination, plus refusals (missing file, existing file without overwrite, read-only server), plus two >65535-block transfers at blksize 8. Oracle after tftpc exits: byte-identical files on both sides; a download is stored at <receive-directory>/<basename>, an upload at <server receive dir>/<basename>; on refusal no file appears on the client side, the server's file is untouched and tftpc's stderr reports the error; tftpc ends within the watchdog (40 s, 120 s for the long transfers). Non-trivial = non-default options or >= 2 blocks; distinct = distinct cases. Failures are re-run once in isolation.");
     ctx.assume("absolute local paths for tftpc -u are outside the generator (the client opens them relative to its cwd; the property quantifies over relative, nested and Windows-style paths)");
     ctx.assume("windowsize x blksize above the loopback socket buffer is exercised in the simulator and by C09's model client with an enlarged receive buffer, not with tftpc (kernel drops would make the run depend on timing)");
     let dirs = DirPool::new(ctx, "c14");
+    let g = grid();
+    enumerate(ctx, "size-x-option-grid", &g, true, |c, o| dirs.with(|d| judge(d, c, o)));
     explore_n(ctx, "random", ctx.tier.pick(2_500, 50_000), shards(), 24, strategy, |c: &Case, o| dirs.with(|d| judge(d, c, o)));
     let wraps = wrap_cases();
     // quick: one download, one upload of 65538 blocks and the 65536-block upload
